@@ -466,7 +466,18 @@ func (k c20) Run(c *mon.Ctx, workload string, i int64) {
 	args := []string{"run", "-s", cs.Script, "-t", cs.InType, "--output-type", cs.OutType}
 	scripts := map[string]string{}
 	if cs.Mode == "workspace" {
-		args = append(args, "-w", ws)
+		// four spellings of the same workspace (the process runs inside it):
+		// absolute, with a trailing slash, relative, and the flag's default
+		switch mon.Hash64(fmt.Sprint(cs.Files, cs.Input, cs.OutType)) % 4 {
+		case 0:
+			args = append(args, "-w", ws)
+		case 1:
+			args = append(args, "-w", ws+"/")
+		case 2:
+			args = append(args, "-w", ".")
+		default:
+			// no -w at all: the default is the current directory
+		}
 		for name, text := range cs.Files {
 			// the workspace is the .p / .ppl files OF the directory (files in sub-folders are not part of it)
 			if e := filepath.Ext(name); (e == ".p" || e == ".ppl") && !strings.Contains(name, "/") {
